@@ -28,6 +28,7 @@ def observe(case: dict) -> list:
         event = {"id": case["id"] * STRIDE + result["region"], "op": "extract", "build": "", "region": result["region"],
                  "exc": result["exc"], "before": result["before"], "after": result["after"], "seq": result["seq"],
                  "bio_before": result["bio_before"], "bio_after": result["bio_after"],
+                 "bio_locs_before": result["bio_locs_before"], "bio_locs_after": result["bio_locs_after"],
                  "ex": {key: extract[key] for key in ("exc", "rec", "seq", "raw", "pairs")},
                  "info": {"stage": extract["stage"], "topology": extract["topology"]}}
         events.append(event)
@@ -48,7 +49,8 @@ def describe(case, event, persist):
             "observed": {"write_exc": event["exc"], "load_exc": extract["exc"], "stage": info["stage"], "topology": info["topology"],
                          "file_numbers": extract["raw"], "extract_length": len(extract["seq"]),
                          "loaded": {k: len(v) for k, v in extract["rec"].items() if isinstance(v, list)},
-                         "biopython_record_same": event["bio_before"] == event["bio_after"]},
+                         "biopython_record": [event["bio_before"], event["bio_after"]],
+                         "biopython_locations": [event["bio_locs_before"], event["bio_locs_after"]]},
             "features": sorted(set(feats)), "sampled": case["sampled"]}
 
 
@@ -69,7 +71,7 @@ def run(ctx):
     enumerated = len(cases)
     for _ in range(400 if ctx.quick else 15000):
         uni = persist.random_universe(rng)
-        cases.append({"uni": uni, "hist": persist.pipeline_history(rng, uni), "seed": ctx.seed, "sampled": True})
+        cases.append({"uni": uni, "hist": persist.pipeline_history(rng, uni), "seed": 1000 + ctx.seed, "sampled": True})
     for idx, case in enumerate(cases):
         case["id"] = idx
     samples, skipped, regions_seen = [], {}, 0
